@@ -39,6 +39,7 @@ fn main() {
         "C05" => props::c05::run(&env),
         "C06" => props::c06::run(&env),
         "C07" => props::c07::run(&env),
+        "C08" => props::c08::run(&env),
         "C09" => props::c09::run(&env),
         "C10" => props::c10::run(&env),
         "C11" => props::c11::run(&env),
